@@ -23,7 +23,10 @@ def run(res, tier, seed, replay):
     res.obligation(not new, None if not new else f"new hash-container iteration site(s) not accounted for: {new}", {"new_sites": new})
     nproc = 3 if tier == "quick" else 10
     k = 1 if tier == "quick" else 15
-    if replay:
+    capture_replay = bool(replay) and json.load(open(replay)).get("replay", {}).get("kind") == "capture_order"
+    if capture_replay:
+        jobs = []
+    elif replay:
         cases = ss.replay_cases(replay)
         tmp = os.path.join(vlib.OUT, "c06_cases.jsonl")
         os.makedirs(vlib.OUT, exist_ok=True)
@@ -81,7 +84,7 @@ def run(res, tier, seed, replay):
     # ---- capturing a DependencySnapshot: the order in which the provider is queried must not depend on hash seeds (a
     # provider that numbers its ids on first use would otherwise hand out other ids, and the snapshot would prefer other
     # union members)
-    if not replay or json.load(open(replay)).get("replay", {}).get("kind") == "capture_order":
+    if not replay or capture_replay:
         bs = os.path.join(vlib.cargo_build("debug", hooks=True, bins=["snapshot_cases"]), "snapshot_cases")
         if replay:
             spec = json.load(open(replay))["replay"]["spec"]
